@@ -15,6 +15,7 @@ import (
 	"strings"
 	"sync"
 	"time"
+	"unicode"
 
 	"github.com/emersion/go-sasl"
 )
@@ -647,6 +648,15 @@ func encodeUTF8AddrUnitext(raw string) string {
 			out.WriteRune(ch)
 		case ch <= '\x7F':
 			// other ASCII: CTLs, space and specials
+			out.WriteRune('\\')
+			out.WriteRune('x')
+			out.WriteRune('{')
+			out.WriteString(strings.ToUpper(strconv.FormatInt(int64(ch), 16)))
+			out.WriteRune('}')
+		case unicode.IsSpace(ch) || unicode.IsControl(ch):
+			// Non-ASCII white space and controls (NEL, NBSP, U+3000, ...)
+			// would be taken for parameter separators or trimmed away by
+			// the receiving side.
 			out.WriteRune('\\')
 			out.WriteRune('x')
 			out.WriteRune('{')
